@@ -24,8 +24,11 @@ import (
 
 func init() { register("C18", checkC18) }
 
-// six sites: read, write (two sites), execve, a number that is in no table, and number 0 through the XOR idiom
-var c18SiteNames = []string{"read", "write", "write", "exit_group", "", "#0"} // exit_group: a name with an underscore
+// seven sites: read, write (two sites), exit_group, a number that is in no table, number 0 through the XOR idiom, and readv
+// (a name that has another discovered name as a proper prefix)
+var c18SiteNames = []string{"read", "write", "write", "exit_group", "", "#0", "readv"} // exit_group: a name with an underscore
+
+const c18Sites = 7
 
 func c18Listing(a *refsem.Arch, set int, i386 bool) (text string, found []string) {
 	raw := "SYSCALL"
@@ -44,7 +47,7 @@ func c18Listing(a *refsem.Arch, set int, i386 bool) (text string, found []string
 		line++
 		fmt.Fprintf(&b, "  p.go:%d\t0x%x\t90\t%s\n", line, 0x1000+line, asm)
 	}
-	for s := 0; s < 6; s++ {
+	for s := 0; s < c18Sites; s++ {
 		fmt.Fprintf(&b, "TEXT main.site%d(SB) /src/p.go\n", s)
 		ins("NOPL")
 		if set&(1<<s) == 0 {
@@ -98,6 +101,7 @@ type c18Run struct {
 	Format string   `json:"format"`
 	GoArch string   `json:"goarch"`
 	Debug  bool     `json:"debug"`
+	Out    int      `json:"out"` // 0: stdout; 1: -out <fresh file from a template>; 2: -out <file that an earlier, longer profile was written to>
 }
 
 func checkC18(tier, replay string) int {
@@ -117,7 +121,7 @@ func checkC18(tier, replay string) int {
 		}
 	}()
 	archOf := map[string]*refsem.Arch{"amd64": refsem.ArchByName("x86_64"), "386": refsem.ArchByName("i386")}
-	bUniverse := []string{"read", "exit_group", "bogus_syscall"}
+	bUniverse := []string{"read", "exit_group", "bogus_syscall", "readv"}
 	aUniverse := []string{"write", "rt_sigreturn", "bogus_allow", "waitpid"} // waitpid exists on i386 only; rt_sigreturn has an underscore
 	subsets := func(u []string) [][]string {
 		var out [][]string
@@ -144,7 +148,7 @@ func checkC18(tier, replay string) int {
 		runs = []c18Run{f.Case}
 	} else {
 		n := 0
-		for set := 0; set < 64; set++ {
+		for set := 0; set < 1<<c18Sites; set++ {
 			for bi, B := range subsets(bUniverse) {
 				for ai, A := range subsets(aUniverse) {
 					for fi, format := range []string{"config", "code"} {
@@ -152,11 +156,11 @@ func checkC18(tier, replay string) int {
 							n++
 							if tier == "quick" {
 								// quick: all found-sets x all blacklists on amd64/config, rotating the other dimensions
-								if (ai+set+bi)%4 != 0 || (gi == 1 && (set+bi)%8 != 0) || (fi == 1 && (set+ai)%3 != 0) {
+								if (ai+set+bi)%8 != 0 || (gi == 1 && (set+bi)%8 != 0) || (fi == 1 && (set+ai)%3 != 0) {
 									continue
 								}
 							}
-							runs = append(runs, c18Run{Set: set, B: B, A: A, Style: n, Format: format, GoArch: ga, Debug: n%5 == 0 && format == "config"})
+							runs = append(runs, c18Run{Set: set, B: B, A: A, Style: n, Format: format, GoArch: ga, Debug: n%5 == 0 && format == "config", Out: (n / 7) % 3})
 						}
 					}
 				}
@@ -167,7 +171,7 @@ func checkC18(tier, replay string) int {
 	listings := map[string]string{}
 	foundOf := map[string][]string{}
 	for _, ga := range []string{"amd64", "386"} {
-		for set := 0; set < 64; set++ {
+		for set := 0; set < 1<<c18Sites; set++ {
 			txt, found := c18Listing(archOf[ga], set, ga == "386")
 			p := filepath.Join(scratch, fmt.Sprintf("l-%s-%d.lst", ga, set))
 			os.WriteFile(p, []byte(txt), 0o644)
@@ -196,9 +200,35 @@ func checkC18(tier, replay string) int {
 		for _, v := range joinFlag(r.A, r.Style/6) {
 			argv = append(argv, "-allow", v)
 		}
+		outPath := ""
+		if r.Out > 0 {
+			outPath = filepath.Join(scratch, fmt.Sprintf("out-%d", atomic.AddInt64(&seq, 1)), "profile_linux_"+r.GoArch+".txt")
+			defer os.RemoveAll(filepath.Dir(outPath))
+			outArg := filepath.Join(filepath.Dir(outPath), "profile_{{.GOOS}}_{{.GOARCH}}.txt")
+			if r.Out == 2 {
+				// history: the same file received the profile of an earlier, more permissive invocation (everything found, nothing blacklisted)
+				full := fmt.Sprintf("%s/%d", r.GoArch, 1<<c18Sites-1)
+				first := runCmd(60*time.Second, pe.env(listings[full], nil), scratch, pe.profiler, "-format", r.Format, "-allow", strings.Join(aUniverse, ","), "-out", outArg, bin)
+				atomic.AddInt64(&done, 1)
+				if st, err := os.Stat(outPath); first.Exit != 0 || err != nil || st.Size() == 0 {
+					ctx.Violation("C18:profiler-failed:first-run:"+cls0(r), fmt.Sprintf("the preparatory run (all sites, -out) exited %d: %.300s", first.Exit, first.Stderr), r)
+					return
+				}
+				os.Remove(profilerCachePath(pe.home, bin))
+			}
+			argv = append(argv, "-out", outArg)
+		}
 		argv = append(argv, bin)
 		res := runCmd(60*time.Second, pe.env(listings[k], nil), scratch, argv...)
 		atomic.AddInt64(&done, 1)
+		if outPath != "" && res.Exit == 0 {
+			b, err := os.ReadFile(outPath)
+			if err != nil {
+				ctx.Violation("C18:no-output-file:"+cls0(r), fmt.Sprintf("-out %s: exit 0 but %v", outPath, err), r)
+				return
+			}
+			res.Stdout = string(b)
+		}
 		// expected = sort(dedup((found ∩ table) − B) ∪ (A ∩ table))
 		exp := map[string]bool{}
 		for _, f := range foundOf[k] {
@@ -281,13 +311,15 @@ func checkC18(tier, replay string) int {
 	ctx.Cov["profiler_runs"] = done
 	ctx.Cov["runs_with_non_empty_profile"] = nonEmpty
 	ctx.Cov["filter_events_executed"] = events
-	ctx.Cov["rule"] = "the real profiler binary (with a fake `go` tool printing a synthetic listing) is run for every sub-multiset of a 6-site universe (read, write at two sites, exit_group, a number in no table, syscall 0 through the XOR idiom) x blacklist subsets of {read, exit_group, bogus_syscall} x allow subsets of {write, rt_sigreturn, bogus_allow, waitpid(i386 only)} x flag spellings (comma, semicolon, blank+comma, repeated flag, a name repeated inside one value, a name repeated across flags) x formats {config, code} x binaries {amd64, 386} (quick: a rotating selection of the last dimensions; thorough: the full product); the emitted name list (YAML parsed by the harness / Go code parsed with go/parser) must equal sort(dedup((found ∩ table) − blacklist) ∪ (allow ∩ table)); the YAML must load through ucfg and compile to a filter that, on every cell of the exact partition, allows exactly those syscalls and answers errno otherwise; non-trivial = runs with a non-empty profile"
+	ctx.Cov["rule"] = "the real profiler binary (with a fake `go` tool printing a synthetic listing) is run for every sub-multiset of a 7-site universe (read, write at two sites, exit_group, a number in no table, syscall 0 through the XOR idiom, readv = a name with another discovered name as proper prefix) x blacklist subsets of {read, exit_group, bogus_syscall, readv} x allow subsets of {write, rt_sigreturn, bogus_allow, waitpid(i386 only)} x flag spellings (comma, semicolon, blank+comma, repeated flag, a name repeated inside one value, a name repeated across flags) x formats {config, code} x binaries {amd64, 386} x output destination in rotation {stdout, -out with a GOOS/GOARCH template naming a fresh file, -out naming a file that an earlier more permissive invocation wrote a longer profile to} (quick: a rotating selection of the last dimensions; thorough: the full product); the emitted name list (YAML parsed by the harness / Go code parsed with go/parser) must equal sort(dedup((found ∩ table) − blacklist) ∪ (allow ∩ table)); the YAML must load through ucfg and compile to a filter that, on every cell of the exact partition, allows exactly those syscalls and answers errno otherwise; non-trivial = runs with a non-empty profile"
 	ctx.Assumptions = []string{"set algebra of the statement for disjoint flag sets", "the fake go tool stands for the disassembler"}
 	if replay != "" {
 		return finishReplay(ctx)
 	}
 	return ctx.Finish()
 }
+
+func cls0(r c18Run) string { return r.Format + ":" + r.GoArch }
 
 func dedup(s []string) []string {
 	var out []string
